@@ -208,6 +208,21 @@ def run(F, tier, res):
     EXIT_OK_AFTER_PAGER = {'delta::delta': 'the renderer (explicit aborts triaged by C03.P4)', 'config::delta_unreachable': 'unreachable match arm'}
     direct_exit = [q for q in F.fn_bodies for _, cc in F.calls(q) if callee_of(cc) == 'std::process::exit']
     exiters = F.reverse_reaching(direct_exit)
+    CGx = F.callgraph()
+
+    def _exits_only_via_accepted(fn):
+        """process::exit is reachable from fn only through the accepted functions (a helper extracted from run_app that keeps the
+        `unwrap_or_else(|_| delta_unreachable(..))` of the code it was cut from)"""
+        seen, work = set(), [fn]
+        while work:
+            x = work.pop()
+            if x in seen or x in EXIT_OK_AFTER_PAGER:
+                continue
+            seen.add(x)
+            if x in direct_exit:
+                return False
+            work += [y for y in CGx.get(x, ()) if y in exiters]
+        return True
     for q in ra:
         fm = [i for i, cc in F.calls(q) if callee_of(cc).endswith('OutputType::from_mode')]
         if not fm:
@@ -220,7 +235,7 @@ def run(F, tier, res):
             cal = callee_of(cc)
             if i in after and (cal in exiters or cal == 'std::process::exit'):
                 nx += 1
-                if cal in EXIT_OK_AFTER_PAGER:
+                if cal in EXIT_OK_AFTER_PAGER or (cal != 'std::process::exit' and _exits_only_via_accepted(cal)):
                     okx += 1
                 else:
                     res.violate('EXIT', 'fn=%s;after-pager;callee=%s' % (q, cal), 'run_app calls %s, which can end the process with process::exit, while the pager handle is alive: '
@@ -240,7 +255,18 @@ def run(F, tier, res):
         nst += 1
         vals = F.operand_literals(p, o)
         roots = F.trace(p, o)
-        if any(r[0] == 'call' and r[1].endswith('ExitStatus::code') for r in roots):
+        def _from_code(fn, rs, depth=0):
+            if any(r[0] == 'call' and r[1].endswith('ExitStatus::code') for r in rs):
+                return True
+            if depth >= 2:
+                return False
+            for r in rs:
+                if r[0] == 'call':
+                    q_ = r[1] if r[1] in F.fn_bodies else (r[4].get('resolved') or '')
+                    if q_ in F.fn_bodies and _from_code(q_, F.trace(q_, {'copy': {'l': 0, 'p': []}}), depth + 1):
+                        return True
+            return False
+        if _from_code(p, roots):
             has_code = True
         bad = [v for v in vals if v[0] == 'int' and v[1] != 0]
         if bad:
